@@ -1,13 +1,18 @@
 #!/bin/bash
-# usage: tools/try_mutant.sh <patch.diff> <ID> [tier]   -- applies the patch to /repo, runs the check, restores /repo
+# usage: tools/try_mutant.sh <patch.diff> <ID> [tier]
+# Runs the check for <ID> against a scratch worktree of /repo HEAD with the patch applied
+# (gosmt -repo <worktree> -scratch <dir>), so /repo and /verif/evidence stay untouched and
+# several mutants can be tried while development goes on.
 set -u
 P="$1"; ID="$2"; TIER="${3:-quick}"
+export GOFLAGS=-mod=mod GOPROXY=off GOSUMDB=off GOTOOLCHAIN=local
+N=$(basename $(dirname "$P"))_$$
+WT=/tmp/wt/mut_${ID}_$N
+git -C /repo worktree add -q --detach $WT HEAD || exit 3
+git -C $WT apply "$P" || { echo "patch does not apply"; git -C /repo worktree remove --force $WT; exit 3; }
+SC=/tmp/wt/scratch_${ID}_$N; mkdir -p $SC
 cd /verif
-if [ -n "$(git -C /repo status --porcelain --untracked-files=no)" ]; then echo "/repo not clean"; exit 3; fi
-git -C /repo apply "$P" || { echo "patch does not apply"; exit 3; }
-mkdir -p /tmp/mut_ev && cp evidence/$ID.json /tmp/mut_ev/$ID.json 2>/dev/null
-timeout 3000 ./check $ID --tier $TIER > /tmp/mut_out_$ID.txt 2>&1; rc=$?
-git -C /repo checkout -- .
-cp /tmp/mut_ev/$ID.json evidence/$ID.json 2>/dev/null
-grep -E "VIOLATION|KNOWN-FINDING|INCONCLUSIVE|^OK|HARNESS-STALE" /tmp/mut_out_$ID.txt | cut -c1-400 | head -8
+timeout 3000 bin/gosmt -id $ID -tier $TIER -repo $WT -scratch $SC > $SC/log.txt 2>&1; rc=$?
+grep -E "VIOLATION|KNOWN-FINDING|INCONCLUSIVE|^OK|HARNESS-STALE" $SC/log.txt | cut -c1-300 | head -6
 echo "exit=$rc"
+git -C /repo worktree remove --force $WT; rm -rf $SC
